@@ -114,9 +114,17 @@ def real(case):
             st2 -= 7
         except (ValueError, TypeError):
             pass
+        # … nor what the caller does with the arrays an accessor handed out (index_trajs, trajs, iteration, states)
+        try:
+            for acc in (obj.index_trajs, obj.trajs, list(obj), [obj.states]):
+                for a_ in acc:
+                    if isinstance(a_, np.ndarray) and a_.size:
+                        a_[...] = a_.max() if a_.flat[0] != a_.max() else a_.min()
+        except (ValueError, TypeError):
+            pass
         T3, st3 = obj.estimate_markov_model(case['lag'])
         if not (np.array_equal(T, np.asarray(T3)) and np.array_equal(st, st3)):
-            raise AssertionError('second estimate from the same StateTraj differs after the first result was overwritten')
+            raise AssertionError('second estimate from the same StateTraj differs after the first result / the accessor arrays were overwritten')
         return res
     out = core.call(run)
     out.pop('msg', None)
